@@ -12,6 +12,7 @@ import Driver.FrameD
 import Driver.MultiRefD
 import Driver.IsolationD
 import Driver.WsdlD
+import Driver.XsdD
 /-! Line-protocol driver: one JSON object per stdin line, one per stdout line. -/
 open Lean Driver
 
@@ -39,6 +40,7 @@ def dispatch (j : Json) : R Json := do
   | "attachment" => attachmentRun j
   | "isolation.run" => isolationRun j
   | "wsdl.exposed" => wsdlExposed j
+  | "xsd.parse" => xsdParse j
   | _ => throw s!"unknown op {op}"
 
 def handleLine (line : String) : String :=
